@@ -55,7 +55,7 @@ theorem C07_parse_build (lower : Bytes → Bytes) (v6 : Bool) (f : AnnFields) (h
          | .error e => .error e
          | .ok params =>
            Sanitize.announce
-             { event := ev, eventProvided := true, infoHash := f.ih, compact := false, numWantProvided := true,
+             { event := ev, eventProvided := true, infoHash := f.ih, compact := false, numWantProvided := f.nw != 4294967295,
                ipProvided := ipsel.2, numWant := f.nw, left := f.left, downloaded := f.dl, uploaded := f.ul,
                peer := { id := f.pid, port := f.port, ip := ipsel.1, fam := .v4 }, params := params }
              opts.maxNumWant opts.defaultNumWant) := by
@@ -300,5 +300,14 @@ example : AnnFields.WF false
     { connID := List.replicate 8 1, tx := [1,2,3,4], ih := List.replicate 20 7, pid := List.replicate 20 9,
       dl := 5, left := 0, ul := 2^64-1, evCode := 2, ipField := [0,0,0,0], key := 77, nw := 50, port := 6881 } := by
   simp [AnnFields.WF]
+
+/-- **BEP 15 `num_want` (D23)**: the value -1 (`0xFFFFFFFF`) asks for the configured default; any other value is explicit
+and capped at the configured maximum — this is what `C07_parse_build` hands to `SanitizeAnnounce` -/
+theorem C07_numwant (nw mx df : Nat) :
+    Sanitize.capNumWant (nw != 4294967295) nw mx df = if nw = 4294967295 then df else if nw > mx then mx else nw := by
+  unfold Sanitize.capNumWant
+  by_cases h : nw = 4294967295
+  · simp [h]
+  · simp [h]
 
 end Udp
